@@ -830,15 +830,15 @@ V("c03-twin-expanddims-sorted-once-in-a-property", "C03", "-", "dask_array/manip
   ("dask_array/manipulation/_expand.py", "        axes = tuple(sorted(self.axes))\n        input_name = self.array._name", "        axes = self._ordered_axes\n        input_name = self.array._name"),
 ])
 V("c28-slice-fusion-bypasses-the-door-again", "C28", "R28.4", "dask_array/slicing/_basic.py",
-  "                if not any(np.isnan(dim) and idx != slice(None, None, None) for dim, idx in zip(shape, normalized)):\n                    return SliceSlicesIntegers(self.array.array, normalized, self.allow_getitem_optimization)", "                return SliceSlicesIntegers(self.array.array, normalized, self.allow_getitem_optimization)", expect="_simplify_down")
+  "                if not any(np.isnan(dim) and idx != slice(None, None, None) for dim, idx in zip(shape, normalized)):\n                    fused_slice =", "                if True:\n                    fused_slice =", expect="_simplify_down")
 V("c28-new-rewrite-builds-slice-node-directly", "C28", "R28.4", "dask_array/manipulation/_expand.py", None, None, expect="SliceSlicesIntegers(...)", edits=[
   ("dask_array/manipulation/_expand.py", None, "\n\ndef _trim_leading(expr, n):\n    from dask_array.slicing import SliceSlicesIntegers\n\n    return SliceSlicesIntegers(expr, (slice(n, None),) + (slice(None),) * (expr.ndim - 1), False)\n"),
 ])
 V("c28-door-refusal-dropped", "C28", "R28.4", "dask_array/slicing/_basic.py",
   "    for dim, ind in zip(shape, index):\n        if np.isnan(dim) and ind != slice(None, None, None):\n            raise ValueError(f\"Arrays chunk sizes are unknown: {shape}{unknown_chunk_message}\")\n", "", expect="slice_slices_and_integers")
 V("c28-twin-fusion-guard-as-early-continue", "C28", "-", "dask_array/slicing/_basic.py",
-  "                if not any(np.isnan(dim) and idx != slice(None, None, None) for dim, idx in zip(shape, normalized)):\n                    return SliceSlicesIntegers(self.array.array, normalized, self.allow_getitem_optimization)",
-  "                partial_unknown = any(np.isnan(dim) and idx != slice(None, None, None) for dim, idx in zip(shape, normalized))\n                if not partial_unknown:\n                    return SliceSlicesIntegers(self.array.array, normalized, self.allow_getitem_optimization)", twin=True)
+  "                if not any(np.isnan(dim) and idx != slice(None, None, None) for dim, idx in zip(shape, normalized)):\n                    fused_slice =",
+  "                partial_unknown = any(np.isnan(dim) and idx != slice(None, None, None) for dim, idx in zip(shape, normalized))\n                if not partial_unknown:\n                    fused_slice =", twin=True)
 V("c12-stop-defaulted-with-or", "C12", "R12.6", "dask_array/slicing/_utils.py",
   "            if idx.start in (None, 0) and idx.stop is None and idx.step in (None, 1):\n                return slice(None, None, None)\n            return idx", "            if idx.step in (None, 1):\n                return slice(idx.start or None, idx.stop or None, None)\n            return idx", expect="normalize_slice")
 V("c12-twin-stop-compared-with-none", "C12", "-", "dask_array/slicing/_utils.py",
@@ -883,6 +883,13 @@ V("c20-blocks-not-grid-sensitive", "C20", "R20.6", "dask_array/slicing/_blocks.p
   "    def _requires_grid_preservation(self, dependency):\n        # ``index`` addresses blocks of the grid the source advertised when\n        # ``x.blocks[...]`` was written.\n        return True\n\n", "", expect="Blocks")
 V("c20-twin-sliding-window-fusion-guard-nested", "C20", "-", "dask_array/_overlap.py",
   "        return self._unless_grid_observed(parent, dependents, fused)\n\n    def _unless_grid_observed", "        if fused.chunks != parent.chunks and self._has_grid_sensitive_dependent(parent, dependents):\n            return None\n        return fused\n\n    def _unless_grid_observed", twin=True)
+V("c03-slice-fusion-without-grid-check", "C03", "R03.8", "dask_array/slicing/_basic.py",
+  "                    if _same_grid(fused_slice.chunks, self.chunks):\n                        return fused_slice", "                    return fused_slice", expect="SliceSlicesIntegers")
+V("c03-new-simplify-down-rewrite-unreviewed", "C03", "R03.8", "dask_array/_broadcast_to.py", None, None, expect="_simplify_down", edits=[
+  ("dask_array/_broadcast_to.py", "    def _accept_slice(self, slice_expr):", "    def _simplify_down(self):\n        if isinstance(self.array, BroadcastTo):\n            return BroadcastTo(self.array.array, self._shape, self._chunks, self.operand(\"_meta_override\"))\n\n    def _accept_slice(self, slice_expr):"),
+])
+V("c03-twin-slice-fusion-grid-check-via-equality", "C03", "-", "dask_array/slicing/_basic.py",
+  "                    if _same_grid(fused_slice.chunks, self.chunks):\n                        return fused_slice", "                    if fused_slice.chunks == self.chunks:\n                        return fused_slice", twin=True)
 V("c02-detector-uses-forward-permutation", "C02", "R02.6", "dask_array/_blockwise.py",
   "        inv = expr._inverse_axes\n        dep_mapping = tuple(parent_mapping[inv[i]] for i in range(len(inv)))", "        dep_mapping = tuple(parent_mapping[ax] for ax in expr.axes)", expect="_symbolic_mapping")
 V("c02-twin-detector-local-rename", "C02", "-", "dask_array/_blockwise.py",
